@@ -43,11 +43,23 @@ E  every layout (bounded, see RULE) over the fixed skeleton
    NOT a project); PROJECT( / Project( / a byte-order mark before project( (the documentation does not say: no verdict
    demanded where the two readings differ, order independence still checked).
 
+   FLINK family: the CHECKED FILE ITSELF is a symbolic link.  One regular defaults file (the target) at one of {pa, pa/main,
+   pa/nested, pb, common}, one or two [thorough: three] symbolic links named sdkconfig.defaults / sdkconfig.ci* at other places of
+   that set pointing at it (relative link text [thorough: also absolute]) -- so: a link into a sibling / nested / enclosing
+   project, a link into the shared directory outside every project, a link from the shared directory into a project, and two
+   links in different projects to one file -- rename files at 1..2 of the places; every non-empty ordered selection of the
+   links and the target as argument list.  This family is driven through the real kconfcheck.core.main() (its click callback,
+   in process; check_deprecated_options / _prepare_deprecated_options wrapped to record what main hands over), because what
+   main() does with the file arguments before the checker sees them is the thing under test.
+
 O1 per-file verdict == memo-free specification (spec_verdict) written from the property statement.
 O2 within one (layout, variant) the verdict of a file is the same for every order / subset of the argument list
    (the per-invocation project-root cache and the lazily built per-project sets are the suspects).
 O4 (SPELL family) every spelling of IDF_PATH gives every file the verdict of the plain spelling (which is under O1).
 O3 the list of files to check returned by the prepare step contains no rename file and every requested defaults file.
+O5 (FLINK family) O1..O3 with the scope of a path taken from the DIRECTORY IT WAS PASSED FROM (docs: "When checking a file at path
+   P: the checker walks up from P to find its nearest project root ancestor"): a link at path P is judged as a regular file with the
+   same content at P would be; every path passed gets its own verdict (two links to one file are two files of two scopes).
 conformance: a handful of layouts run through the real CLI (python -m kconfcheck --check deprecated) in a subprocess;
    the verdict lines must agree with what the in-process driver observed.
 """
@@ -96,6 +108,11 @@ RULE = (
     "commented_out_tight, commented_out_after_header, in_trailing_comment, in_arguments, longer_command_name, empty_file; "
     "undetermined: upper_case, mixed_case, bom_first_line); variants IDF_PATH from the environment (every ordered selection) / cwd "
     "fallback [thorough: every ordered selection; and --includes examples/pa]. "
+    "FLINK family (the checked file is a symbolic link; driven through the real kconfcheck.core.main): places {pa, pa/main, pa/nested, pb, "
+    "common}; rename files for X at 1..2 of them; one regular defaults file (target) at one of them; symbolic links at 1..2 [thorough: 1..3] "
+    "of the other places pointing at the target, relative link text [thorough: relative | absolute], root not a project [thorough: is / is "
+    "not]; variants IDF_PATH from the environment / cwd fallback (every non-empty ordered selection of links + target), --includes examples "
+    "(singletons + forward + reversed) [thorough: --includes examples/pa, first rename file passed explicitly]. "
     "Per layout: invocation variants (IDF_PATH from the environment / cwd fallback; explicit rename files none / each / all; "
     "--includes none / examples / examples/pa [thorough: root, examples/common, examples/pa/nested, two dirs]) x EVERY non-empty "
     "ordered selection of the defaults files as argument list (variants with a single explicit rename file, which only changes "
@@ -121,6 +138,12 @@ ASSUMPTIONS = [
     "not applied a second time; the verdicts are compared with those of the plain spelling (O4), also for the files of the orphan "
     "directory whose O1 verdict is ambiguous. File arguments are made absolute by main() before the checker sees them; their own spelling "
     "is not varied (only: through the link / by real path)",
+    "FLINK family: the statement does not name symbolic links; it speaks of 'the file's own nearest enclosing project' for 'files passed to "
+    "one invocation', and docs/en/kconfcheck/index.rst defines the scope on the PATH ('When checking a file at path P: the checker walks up "
+    "from P to find its nearest project root ancestor'). A symbolic link at path P is therefore a file at path P: its scope is that of the "
+    "directory it was passed from (the project whose build reads it), not that of the directory its target lies in, and each path passed is a "
+    "file of its own. Only links to regular files inside the IDF tree; no chains of links, no dangling links, no links to directories below "
+    "the IDF root (SPELL family covers a link to the root itself)",
 ]
 
 PLACES = ("", "components/c", "examples/pa", "examples/pa/main", "examples/pa/nested", "examples/pb", "examples/common",
@@ -175,6 +198,9 @@ INCLUDE_DIRS_QUICK = (("examples",), ("examples/pa",))
 INCLUDE_DIRS_THOROUGH = INCLUDE_DIRS_QUICK + (("",), ("examples/common",), ("examples/pa/nested",), ("examples/pa", "examples/common"))
 DEEP_INCLUDE_DIRS_QUICK = (("examples/pa/apps",), ("examples/pa/apps/unit",))
 DEEP_INCLUDE_DIRS_THOROUGH = DEEP_INCLUDE_DIRS_QUICK + (("examples/pa/nested",), ("examples/pa/apps/grp",), ("examples/pa",))
+
+# FLINK family: the checked file itself is a symbolic link (target: a regular defaults file at another place)
+FLINK_PLACES = ("examples/pa", "examples/pa/main", "examples/pa/nested", "examples/pb", "examples/common")
 
 _mod = None
 
@@ -509,6 +535,27 @@ def cmake_layouts(tier: str):
                 yield dict(base, cmake={"at": at, "shape": shape})
 
 
+def flink_layouts(tier: str):
+    """FLINK family: one regular defaults file (target), 1..k symbolic links to it at other places, rename files at 1..2 places"""
+    thorough = tier == "thorough"
+    for r in (1, 2):
+        for rp in itertools.combinations(FLINK_PLACES, r):
+            for target in FLINK_PLACES:
+                others = [p for p in FLINK_PLACES if p != target]
+                for k in (1, 2, 3) if thorough else (1, 2):
+                    for lp in itertools.combinations(others, k):
+                        for rootproj in (False, True) if thorough else (False,):
+                            for absl in (False, True) if thorough else (False,):
+                                yield {
+                                    "family": "flink",
+                                    "rootproj": rootproj,
+                                    "renames": {p: "X" for p in rp},
+                                    "defaults": {p: "X" for p in FLINK_PLACES if p == target or p in lp},
+                                    "links": {p: target for p in lp},
+                                    "link_abs": absl,
+                                }
+
+
 def layouts(tier: str):
     rens = list(_assignments(3, CONTENTS))
     dfls = list(_assignments(3, CONTENTS, 1))
@@ -533,6 +580,7 @@ def layouts(tier: str):
     yield from spell_layouts(tier)
     yield from twin_layouts(tier)
     yield from cmake_layouts(tier)
+    yield from flink_layouts(tier)
 
 
 def variants(layout: dict, tier: str) -> List[Tuple[tuple, bool]]:
@@ -558,6 +606,11 @@ def variants(layout: dict, tier: str) -> List[Tuple[tuple, bool]]:
         out = [(("env", (), ()), True), (("cwd", (), ()), thorough)]
         if thorough:
             out.append((("env", (), ("examples/pa",)), True))
+        return out
+    if layout.get("family") == "flink":
+        out = [(("env", (), ()), True), (("cwd", (), ()), True), (("env", (), ("examples",)), False)]
+        if thorough:
+            out += [(("env", (), ("examples/pa",)), True), (("env", rp[:1], ()), False)]
         return out
     deep = layout.get("family") == "deep"
     if deep:
@@ -668,8 +721,13 @@ def build_tree(layout: dict) -> str:
     for p in PLACES:
         if p in layout["defaults"]:
             fp = os.path.join(base, p, DEFAULTS_NAME[p])
-            with open(fp, "w") as f:
-                f.write(_text_defaults(layout["defaults"][p]))
+            target = (layout.get("links") or {}).get(p)
+            if target is not None:  # FLINK family: a symbolic link to the regular defaults file at `target`
+                tp = fpath(base, target)
+                os.symlink(tp if layout.get("link_abs") else os.path.relpath(tp, os.path.join(base, p)), fp)
+            else:
+                with open(fp, "w") as f:
+                    f.write(_text_defaults(layout["defaults"][p]))
             files.append(fp)
     return base
 
@@ -744,7 +802,40 @@ def spell_idf_path(base: str, how: str) -> Tuple[str, Optional[str], str]:
     raise ValueError(how)
 
 
-def invoke(base: str, variant: tuple, order: Tuple[str, ...]) -> Tuple[List[Tuple[str, Optional[bool]]], List[str]]:
+def run_real_main(argv: List[str], inc: tuple) -> Tuple[List[Tuple[str, Optional[bool]]], List[str]]:
+    """kconfcheck.core.main() itself (the click callback, in process) with --check deprecated; the two functions main() calls are
+    wrapped to record the list of files after the prepare step and (path handed to the checker, verdict) per file."""
+    import kconfcheck.core as core
+
+    m = mod()
+    rec_files: List[str] = []
+    rec_out: List[Tuple[str, Optional[bool]]] = []
+    saved = (core._prepare_deprecated_options, core.check_deprecated_options, core.log)
+
+    def prep(includes, exclude_submodules, files):
+        res = m._prepare_deprecated_options(includes, exclude_submodules, files)
+        rec_files.extend(res[0])
+        return res
+
+    def chk(full_path, *a, **kw):
+        v = m.check_deprecated_options(full_path, *a, **kw)
+        rec_out.append((os.path.abspath(full_path), v))
+        return v
+
+    core._prepare_deprecated_options, core.check_deprecated_options = prep, chk
+    if not os.environ.get("MCK_DEBUG"):
+        core.log = _NullLog()
+    try:
+        try:
+            core.main.callback(check="deprecated", files=tuple(argv), verbose=0, replace=False, includes=tuple(inc), exclude_submodules=())
+        except SystemExit:
+            pass
+    finally:
+        core._prepare_deprecated_options, core.check_deprecated_options, core.log = saved
+    return rec_out, rec_files
+
+
+def invoke(base: str, variant: tuple, order: Tuple[str, ...], real_main: bool = False) -> Tuple[List[Tuple[str, Optional[bool]]], List[str]]:
     """One kconfcheck invocation. Returns ([(absolute file, verdict)] in check order, files list after prepare)."""
     m = mod()
     via, explicit, includes = variant
@@ -771,6 +862,9 @@ def invoke(base: str, variant: tuple, order: Tuple[str, ...]) -> Tuple[List[Tupl
         # --- what main() does -------------------------------------------------------------------
         files = [os.path.abspath(p) for p in argv]
         try:
+            if real_main:
+                out, files = run_real_main(argv, inc)
+                return out, [os.path.abspath(f) for f in files]
             files, glob, local, ignore_dirs, cache, abs_idf = m._prepare_deprecated_options(inc, (), files)
             out = []
             for full_path in files:
@@ -840,7 +934,7 @@ def check_group(layout: dict, variant: tuple, order_list: List[Tuple[str, ...]],
         case = {"layout": layout, "variant": [via, list(explicit), list(includes)], "orders": [list(order)]}
         r.evals += 1
         try:
-            res, files = invoke(base, variant, order)
+            res, files = invoke(base, variant, order, real_main=layout.get("family") == "flink")
         except ImplRaised as e:
             r.violation(
                 {"kind": "exception", "exc": e.exc_type, "site": e.site, "variant": variant_kind(variant)},
@@ -856,7 +950,8 @@ def check_group(layout: dict, variant: tuple, order_list: List[Tuple[str, ...]],
         if got != want or any(f.endswith("sdkconfig.rename") for f in files):
             r.violation(
                 {"kind": "file_list", "site": "check_deprecated_options.py:_prepare_deprecated_options", "variant": variant_kind(variant),
-                 "extra": sorted(os.path.basename(x) for x in got - want), "missing": sorted(os.path.basename(x) for x in want - got)},
+                 "extra": sorted(os.path.basename(x) for x in got - want), "missing": sorted(os.path.basename(x) for x in want - got),
+                 **({"checked_file_is": "symlink", "site": "core.py:main"} if any(place_of(base, x) in (layout.get("links") or {}) for x in (got ^ want)) else {})},
                 f"files to check {sorted(place_of(base, f) for f in got)} but requested {sorted(place_of(base, f) for f in want)} ({layout}, {variant}, {order})",
                 case,
             )
@@ -899,6 +994,9 @@ def check_group(layout: dict, variant: tuple, order_list: List[Tuple[str, ...]],
                     "variant": variant_kind(variant),
                     "root_is_project": layout["rootproj"],
                 }
+                if layout.get("links"):
+                    sig["site"] = "core.py:main"
+                    sig["checked_file_is"] = "symlink_to_" + file_scope(layout["links"][fplace]) if fplace in layout["links"] else "target_of_symlink"
                 if cm:
                     sig["site"] = "check_deprecated_options.py:_is_project_root"
                     sig["cmakelists"] = f"{CMAKE_SHAPES[cm['shape']][1]}@{cm['at']}"
@@ -968,7 +1066,7 @@ def run_layout(layout: dict, tier: str, r: common.Result) -> None:
                 r.count("spelling_" + variant[0][4:])
         _via, explicit, includes = variant
         r.outcome((layout["rootproj"], sorted(layout["renames"].items()), sorted(layout["defaults"].items()), explicit, includes, sorted(verd.items()))
-                  + ((_via,) if _via not in ("env", "cwd") else ()) + ((layout["cmake"]["at"], layout["cmake"]["shape"]) if layout.get("cmake") else ()))  # fmt: skip
+                  + ((_via,) if _via not in ("env", "cwd") else ()) + ((tuple(sorted(layout["links"].items())), layout["link_abs"]) if layout.get("links") else ()) + ((layout["cmake"]["at"], layout["cmake"]["shape"]) if layout.get("cmake") else ()))  # fmt: skip
         if first is None:
             first = verd
     r.sample = {"layout": layout, "verdicts_plain": first, "invocations": r.evals}
@@ -1019,7 +1117,7 @@ def cli_compare(layout: dict, variant: tuple, order: Tuple[str, ...]) -> Optiona
     base = build_tree(layout)
     try:
         with _Quiet():
-            want, _files = invoke(base, variant, order)
+            want, _files = invoke(base, variant, order, real_main=layout.get("family") == "flink")
     except ImplRaised:
         return None  # reported by the exploration itself
     argv = [fpath(base, p) for p in order] + [os.path.join(base, p, "sdkconfig.rename") for p in explicit]
@@ -1050,6 +1148,8 @@ def conformance(tier: str, seed: int):
     all_l = list(layouts("quick"))
     step = max(1, len(all_l) // (10 if tier == "quick" else 40))
     picked = [l for l in all_l[::step] if l["renames"]]
+    fl = [l for l in all_l if l.get("family") == "flink"]
+    picked += fl[:: max(1, len(fl) // (6 if tier == "quick" else 24))]  # the checked file is a symbolic link: through the real CLI too
     viols = []
     n = 0
     for layout in picked:
